@@ -37,7 +37,7 @@ fn kv_streaming(n: usize, rate: f64, frac: f64) -> (StreamingSound, rtrb::Produc
 	(s, prod, fr, ix)
 }
 
-// @h prop=C09,C10,C04 tier=quick kind=main timeout=400
+// @h prop=C09,C10,C04 tier=quick kind=main timeout=900
 // @bounds ONE callback of one frame at rate 1 with 0..5 frames buffered (symbolic count and contents), end-of-stream flag symbolic
 // @funcs StreamingSound::{process,next_frames}, interpolate_frame, Frame::panned, Decibels::as_amplitude
 // @catches output not the 'current' frame (slot 1) - i.e. a latency or alignment different from the static sound's; a slow decoder causing repeated or foreign frames instead of a gap of silence (slots() < 2); popping more or fewer than one frame per output frame; Stopped not reported when the stream has ended and drained
@@ -68,7 +68,7 @@ fn c09_streaming_one_callback_from_any_buffer() {
 	std::mem::forget(s); std::mem::forget(prod);
 }
 
-// @h prop=C10,C03 tier=quick kind=main timeout=400
+// @h prop=C10,C03 tier=quick kind=main timeout=900
 // @bounds the decoder-error flag raised while the sound is in ANY of the seven playback states or still waiting for its start time; 3 frames buffered; one callback
 // @funcs StreamingSound::process
 // @catches a decode error being ignored while the sound is paused / waiting (the sound then never becomes Stopped, is never unloaded, and its decoder thread spins forever)
@@ -91,7 +91,7 @@ fn c10_decoder_error_stops_the_sound_in_every_state() {
 	std::mem::forget(s); std::mem::forget(prod);
 }
 
-// @h prop=C03,C09 tier=quick kind=main timeout=400
+// @h prop=C03,C09 tier=quick kind=main timeout=900
 // @bounds a streaming sound Paused, WaitingToResume or Stopped, or still before its own start time, with 4 frames buffered: one callback
 // @funcs StreamingSound::process
 // @catches a frozen streaming sound emitting audio or consuming buffered frames (its position would advance)
@@ -122,7 +122,7 @@ fn kv_interpolate_frame_spy(p: Frame, c: Frame, n1: Frame, n2: Frame, fraction: 
 	c
 }
 
-// @h prop=C09,C04 tier=quick kind=main timeout=400
+// @h prop=C09,C04 tier=quick kind=main timeout=900
 // @bounds one callback at playback rate 1/2 (phase 0 or 1/2) or 2, with 5 frames buffered: the four frames interpolated, the sub-frame position, and the number of frames consumed
 // @funcs StreamingSound::{process,next_frames}
 // @assume interpolate_frame replaced by a recording stand-in
@@ -148,7 +148,7 @@ fn c09_streaming_fractional_rates_match_the_static_stepping() {
 	std::mem::forget(s); std::mem::forget(prod);
 }
 
-// @h prop=C09,C04 tier=quick kind=main timeout=400
+// @h prop=C09,C04 tier=quick kind=main timeout=900
 // @bounds the reported position with the ring's read index ANYWHERE in the 8-slot ring (symbolic rotation, so the buffered frames may straddle the wrap-around), 1..4 frames buffered
 // @funcs StreamingSound::{on_start_processing,update_current_frame,position}
 // @catches the frame being heard (slot 1) looked up in the first slice of the ring only: the reported position goes stale whenever the buffered frames wrap around the end of the ring
